@@ -138,6 +138,7 @@ IvMulG(Times(_, _), MinS(_), MaxS(_), a, b) ==
   IN  Iv(MinS(c), MaxS(c))
 IvHullG(MinS(_), MaxS(_), a, b) == Iv(MinS(<<a.lo, b.lo>>), MaxS(<<a.hi, b.hi>>))
 IvMaxG(MaxS(_), a, b) == Iv(MaxS(<<a.lo, b.lo>>), MaxS(<<a.hi, b.hi>>))
+IvMaxSeqG(MaxS(_), as) == Iv(MaxS([j \in 1..Len(as) |-> as[j].lo]), MaxS([j \in 1..Len(as) |-> as[j].hi]))
 -----------------------------------------------------------------------------
 (* Transfer functions of the design (one per operator kind).               *)
 (* Norm: a one-point interval is a constant.                               *)
@@ -189,11 +190,18 @@ TChoice(a, b) ==
 \* ... and with a condition the compiler knows
 TChoiceKnown(cond, a, b) == IF cond THEN a ELSE b
 
-TMax2(a, b) ==
-  LET c == SharedCong(a, b)
-  IN  Norm(AbsOfIv(IvMaxG(EMaxSeq, IvOf(a), IvOf(b)), c[1], c[2]))
-RECURSIVE TMax(_)
-TMax(as) == IF Len(as) = 1 THEN as[1] ELSE TMax2(as[1], TMax(Tail(as)))
+\* $max(a1, ..., an): the result is one of the arguments, so its congruence is the one shared by
+\* all of them; its interval is [max of the minima, max of the maxima].  (Deliberately no use of
+\* "an argument that can never win": the documentation promises nothing of that kind.)
+RECURSIVE SharedCongSeq(_)
+SharedCongSeq(as) ==
+  IF Len(as) = 1 THEN <<as[1].mod, as[1].rem>>
+  ELSE LET r == SharedCongSeq(Tail(as))
+       IN  SharedCong(as[1], Abs(as[1].min, as[1].max, r[1], r[2]))
+TMax(as) ==
+  LET c == SharedCongSeq(as)
+  IN  Norm(Abs(EMaxSeq([j \in 1..Len(as) |-> as[j].min]), EMaxSeq([j \in 1..Len(as) |-> as[j].max]), c[1], c[2]))
+TMax2(a, b) == TMax(<<a, b>>)
 
 \* $upper_bound / $lower_bound: a constant that bounds the argument
 TUpper(a) == IF IsFin(a.max) THEN ConstAbs(a.max.v) ELSE Top
